@@ -102,7 +102,7 @@ def oracle(case) -> Info:
 def token_st(draw):
     kind = draw(st.sampled_from(["good", "good", "defect", "defect", "defect", "noise"]))
     if kind == "good":
-        spec = draw(G.frame_spec_st(big=draw(st.integers(0, 9)) == 0, header_only_weight=2))
+        spec = draw(G.frame_spec_st(big=draw(st.integers(0, 9)) == 9, header_only_weight=2))
         octs = G.frame_from_spec(spec)
     elif kind == "defect":
         _k, octs = draw(G.defect_frame_st())
